@@ -522,3 +522,118 @@ class Ctx:
                                       'the target field is not built from the same-named source field (origins: %s)' % sorted(
                                           o for o in og if o.startswith(('pty:', 'call:mithril')))[:5], '%s:%d' % (f.file, line))
         return ok_all
+
+
+    # ---- R2 ordering helpers
+    def call_sites(self, body, pats):
+        return [c for c in body.calls() if any(match_any(pats, n) for n in c.names())]
+
+    def success_edges_of(self, lf, pats, want=+1):
+        """(sites, success edges) of the calls matching pats in lf's body: edges on which the call succeeded."""
+        body = lf.body
+        sites = self.call_sites(body, pats)
+        edges = set()
+        for c in sites:
+            tr = track_result(body, c.dest[0], want)
+            if tr.success_edges:
+                edges |= tr.success_edges
+            elif tr.returned and c.target is not None:
+                edges.add((c.bb, c.target))
+        return sites, edges
+
+    def order(self, clause, fn_or_pat, first, then, desc=None, key=None, first_want=+1):
+        """R2: every path to a call of `then` has passed a successful call of `first`."""
+        f = fn_or_pat if not isinstance(fn_or_pat, str) else self.try_fn(clause, fn_or_pat)
+        if f is None:
+            return None
+        lf = f.logic()
+        body = lf.body
+        fname, fp = first
+        tname, tp = then
+        inst = '%s: %s (success) precedes %s' % (fn_short(f.name), fname, tname)
+        k = key or ('order:%s:%s<%s' % (fn_short(f.name), fname, tname))
+        fs, edges = self.success_edges_of(lf, fp, first_want)
+        ts = self.call_sites(body, tp)
+        if not fs or not ts:
+            self.report.violation(clause, 'R2', inst, k, '%s sites: %d, %s sites: %d' % (fname, len(fs), tname, len(ts)), f.loc())
+            return False
+        if not edges:
+            self.report.violation(clause, 'R2', inst, k, 'the result of %s is not branched on (it cannot gate %s)' % (fname, tname), f.loc())
+            return False
+        reach = body.reach([0], removed=edges)
+        bad = [c for c in ts if c.bb in reach]
+        if bad:
+            self.report.violation(clause, 'R2', inst, k, '%s (line %s) is reachable without a successful %s' % (tname, [c.line for c in bad], fname),
+                                  '%s:%d' % (lf.file, bad[0].line))
+            return False
+        self.report.ok(clause, 'R2', inst, '', f.loc())
+        return True
+
+    def flag_gate(self, clause, fn_or_pat, field_origin, want_false=True, desc='', ret_filter=None, success=None, key=None):
+        """A boolean read from `field_origin` (origin glob, adapters mode) is tested and success requires it to be
+        false (want_false) / true."""
+        f = fn_or_pat if not isinstance(fn_or_pat, str) else self.try_fn(clause, fn_or_pat)
+        if f is None:
+            return None
+        lf = f.logic()
+        body = lf.body
+        if success is None:
+            success = {'result': 'ok', 'option': 'some', 'bool': 'true'}.get(ty_class(lf.ret), 'any')
+        # reads of the flag: either a parameter origin (pty:Type.field) or a direct field projection Type.field
+        tyname, fld = field_origin.split(':', 1)[-1].rsplit('.', 1)
+        edges = set()
+        n = 0
+        flag_locals = set()
+        for bi, b in enumerate(body.blocks):
+            if b.cleanup:
+                continue
+            for (_, pl, rv) in b.stmts:
+                for (l, place) in __import__('core').rvalue_reads(rv):
+                    for pe in place[1]:
+                        if isinstance(pe, tuple) and pe[0] == 'f' and pe[2] == fld and pe[3] and pe[3].endswith('::' + tyname) and not pl[1]:
+                            flag_locals.add(pl[0])
+        for l in flag_locals:
+            tr = track_result(body, l, -1 if want_false else +1, 'bool')
+            if tr.success_edges:
+                n += 1
+                edges |= tr.success_edges
+        inst = '%s: success requires %s == %s %s' % (fn_short(f.name), field_origin.split(':', 1)[-1], 'false' if want_false else 'true', desc)
+        k = key or ('flag:%s:%s' % (fn_short(f.name), field_origin.split(':', 1)[-1]))
+        if not n:
+            self.report.violation(clause, 'R1', inst, k, 'the flag is never tested', f.loc())
+            return False
+        if success_reachable(body, edges, success, ret_filter=ret_filter):
+            self.report.violation(clause, 'R1', inst, k, 'a success return is reachable without the %s arm of the test' % ('false' if want_false else 'true'), f.loc())
+            return False
+        self.report.ok(clause, 'R1', inst, '%d test(s)' % n, f.loc())
+        return True
+
+
+    # ---- embedded SQL conditions (string constants handed to WhereCondition::new)
+    def sql_conditions(self, f):
+        """[(text, line)] of the condition strings a query-builder fn hands to WhereCondition::new."""
+        out = []
+        for g in f.family():
+            for c in g.body.calls():
+                if any(glob_match('*::WhereCondition::new', n) for n in c.names()) and c.args:
+                    a = c.args[0]
+                    if a[0] == 'const':
+                        out.append((a[1].strip().strip('"'), c.line))
+                    else:
+                        for o in fn_origins(g, a, 'adapters'):
+                            if o.startswith('const:'):
+                                out.append((o[6:].strip().strip('"'), c.line))
+        return out
+
+
+def parse_sql_comparison(text):
+    """`col op ?` / `? op col` -> (col, op) with op normalised to col-on-the-left; None if not a single comparison."""
+    import re as _re
+    m = _re.match(r'^\s*([A-Za-z_][A-Za-z0-9_.]*)\s*(<=|>=|<>|!=|==|=|<|>)\s*\?\*?\d*\s*$', text)
+    if m:
+        return m.group(1), m.group(2)
+    m = _re.match(r'^\s*\?\*?\d*\s*(<=|>=|<>|!=|==|=|<|>)\s*([A-Za-z_][A-Za-z0-9_.]*)\s*$', text)
+    if m:
+        flip = {'<': '>', '>': '<', '<=': '>=', '>=': '<=', '=': '=', '==': '==', '<>': '<>', '!=': '!='}
+        return m.group(2), flip[m.group(1)]
+    return None
